@@ -5,8 +5,8 @@ with hostile values or with inert placeholders, so that oracles can compare toke
 """
 from common import *
 
-PIECES = ['"', "\\", ",", "[", "]", "{", "}", ";", "#", "\r\n", "\n", "é", "€", " ", "a", "b1", "/*", "*/", ":is", "text:", "\\\"", "(", ")"]
-SAFE_PIECES = ["a", "b1", " ", "é", "€", "x@y.z", "-", "_", ".", "[", "]", "{", "}", ";", "#", "(", ")", ":is"]
+PIECES = ['"', "\\", ",", "[", "]", "{", "}", ";", "#", "\r\n", "\n", "é", "€", " ", "a", "b1", "/*", "*/", ":is", "text:", "\\\"", "(", ")", "e\u0301", "\u212b"]
+SAFE_PIECES = ["a", "b1", " ", "é", "€", "x@y.z", "-", "_", ".", "[", "]", "{", "}", ";", "#", "(", ")", ":is", "e\u0301", "\u212b"]
 
 
 class Hole:
@@ -44,7 +44,7 @@ def gen_condition(t, r, kinds=None):
     if kind == "notexists":
         return ("notexists",) + tuple(t.holes(r))
     if kind == "size":
-        return ("size", r.choice([":over", ":under"]), r.choice(["100", "10K", "2M"]))
+        return ("size", r.choice([":over", ":under"]), r.choice(["100", "10K", "2M", "0"]))
     if kind == "envelope":
         return ("envelope", r.choice([mt, ":not" + mt[1:]]), t.holes(r), t.holes(r))
     if kind == "address":
@@ -91,9 +91,9 @@ def gen_action(t, r):
     if r.random() < 0.6:
         tags += [":subject", t.hole()]
     if r.random() < 0.5:
-        tags += [":days", r.randint(1, 30)]
+        tags += [":days", r.choice([0, 1, 7, 365, r.randint(1, 30)])]      # 0 is falsy in Python: boundary
     elif r.random() < 0.3:
-        tags += [":seconds", r.randint(1, 3000)]
+        tags += [":seconds", r.choice([0, 1, 86400, r.randint(1, 3000)])]
     if r.random() < 0.4:
         tags += [":from", t.hole()]
     if r.random() < 0.4:
